@@ -31,7 +31,7 @@ ASSUMPTIONS = ["Python's codec for the declared charset round-trips the text (ch
                "surrogate-escaped input is of the form bytes.decode('utf-8','surrogateescape')"]
 LEVEL_TEXT = "randomised search over text/content-type combinations with an explicit round-trip oracle"
 LEVEL_NOTE = "trusts CPython codecs"
-QUICK_N, THOROUGH_N = 800_000, 6_000_000
+QUICK_N, THOROUGH_N = 600_000, 6_000_000
 
 TYPES = ["text/plain", "text/html", "application/xhtml+xml", "text/xml", "application/xml", "text/css",
          "application/json", "application/javascript", "text/javascript", "application/ld+json", "image/svg+xml",
